@@ -709,3 +709,320 @@ Proof.
 Qed.
 
 End REPORT.
+
+(* ====================================================================== *)
+(* the statements of C04_Props                                             *)
+(* ====================================================================== *)
+Lemma marked_by_of c mark :
+  marked_by c mark -> forall n, mark n = marking_of (c_kf c n) (c_kfl c n).
+Proof. intros M n. symmetry. apply marks_agree_of, M. Qed.
+
+Definition outcome_on_record_proof := lookup_run.
+
+Lemma verdict_iff_proof c mark h sel :
+  marked_by c mark -> selection c h sel ->
+  (r_ok (report c (run c h)) = true <-> success mark h sel).
+Proof. intros M S. apply report_ok_proof; [apply marked_by_of, M|exact S]. Qed.
+
+Lemma run_verdict_iff_proof c mark h sel err :
+  marked_by c mark -> selection c h sel ->
+  (verdict c (run c h) err = true <-> success mark h sel /\ err = false).
+Proof.
+  intros M S. unfold verdict. rewrite andb_true_iff, negb_true_iff.
+  rewrite (verdict_iff_proof c mark h sel M S). tauto.
+Qed.
+
+Lemma exit_status_iff_proof c mark h sel err :
+  marked_by c mark -> selection c h sel ->
+  (exit_status (verdict c (run c h) err) = 0 <-> success mark h sel /\ err = false).
+Proof.
+  intros M S. rewrite <- (run_verdict_iff_proof c mark h sel err M S).
+  destruct (verdict c (run c h) err); simpl; split; congruence.
+Qed.
+
+Lemma setup_always_bad_proof c h sel n err :
+  selection c h sel -> In n sel ->
+  did_not_run (case_fate h n) (has_feedback h n) = true ->
+  verdict c (run c h) err = false.
+Proof.
+  intros S I D. destruct (verdict c (run c h) err) eqn:V; [|reflexivity]. exfalso.
+  unfold verdict in V. apply andb_true_iff in V. destruct V as [V _].
+  apply (report_ok_proof c (fun n => marking_of (c_kf c n) (c_kfl c n)) (fun _ => eq_refl) h sel S) in V.
+  specialize (V n I). unfold case_met, met in V. rewrite D in V. discriminate.
+Qed.
+
+Lemma feedback_fails_proof c h sel n :
+  selection c h sel -> In n sel -> c_kf c n = false -> c_kfl c n = false ->
+  on_record h n = Some Ok -> has_feedback h n = true ->
+  In n (r_failed_names (report c (run c h))) /\ r_ok (report c (run c h)) = false.
+Proof.
+  intros S I KF KFL R F.
+  set (mark := fun n => marking_of (c_kf c n) (c_kfl c n)).
+  assert (B : case_bucket mark h n = CFailed).
+  { unfold case_bucket, case_fate, mark. rewrite R, F, KF, KFL. reflexivity. }
+  split.
+  - apply (names_of_in c mark (fun _ => eq_refl) h sel S CFailed n); [discriminate|]. auto.
+  - destruct (r_ok (report c (run c h))) eqn:V; [|reflexivity]. exfalso.
+    apply (report_ok_proof c mark (fun _ => eq_refl) h sel S) in V.
+    specialize (V n I). apply met_bucket in V. fold (case_bucket mark h n) in V.
+    rewrite B in V. destruct V; discriminate.
+Qed.
+
+Lemma named_proof c mark h sel :
+  marked_by c mark -> selection c h sel ->
+  let r := report c (run c h) in
+  (forall n, In n (r_failed_names r) <-> In n sel /\ case_bucket mark h n = CFailed) /\
+  (forall n, In n (r_info_names r) <-> In n sel /\ case_bucket mark h n = CExpected) /\
+  NoDup (r_failed_names r) /\ NoDup (r_info_names r) /\
+  length (r_failed_names r) = r_failed r /\ length (r_info_names r) = r_expected r.
+Proof.
+  intros M S r. pose proof (marked_by_of c mark M) as M'.
+  split; [|split; [|split; [|split; [|split]]]].
+  - intros n. apply (names_of_in c mark M' h sel S CFailed n). discriminate.
+  - intros n. apply (names_of_in c mark M' h sel S CExpected n). discriminate.
+  - apply (names_of_nodup c h).
+  - apply (names_of_nodup c h).
+  - reflexivity.
+  - reflexivity.
+Qed.
+
+Lemma failing_named_proof c mark h sel n :
+  marked_by c mark -> selection c h sel -> In n sel -> case_met mark h n = false ->
+  In n (r_failed_names (report c (run c h))) \/ case_bucket mark h n = CNotRun.
+Proof.
+  intros M S I NM. pose proof (marked_by_of c mark M) as M'.
+  destruct (case_bucket mark h n) eqn:B.
+  - exfalso. assert (X : case_met mark h n = true) by (apply met_bucket; left; exact B). congruence.
+  - left. apply (names_of_in c mark M' h sel S CFailed n); [discriminate|]. auto.
+  - exfalso. assert (X : case_met mark h n = true) by (apply met_bucket; right; exact B). congruence.
+  - right. reflexivity.
+Qed.
+
+Lemma totals_once_proof c mark h sel :
+  marked_by c mark -> selection c h sel ->
+  let r := report c (run c h) in
+  r_passed r = count_bucket mark h CPassed sel /\
+  r_failed r = count_bucket mark h CFailed sel /\
+  r_expected r = count_bucket mark h CExpected sel /\
+  r_notrun r = count_bucket mark h CNotRun sel /\
+  r_passed r + r_failed r + r_expected r + r_notrun r = length sel.
+Proof.
+  intros M S r. pose proof (marked_by_of c mark M) as M'.
+  destruct (report_counts_proof c mark M' h sel S) as (A & B & C & D).
+  fold r in A, B, C, D. repeat split; try assumption.
+  rewrite A, B, C, D. unfold count_bucket.
+  pose proof (cnt_partition (case_bucket mark h) sel) as P. unfold cnt in P. lia.
+Qed.
+
+Lemma report_idempotent_proof c st : report c (after_report c st) = report c st.
+Proof. reflexivity. Qed.
+
+(* ====================================================================== *)
+(* a run as batches                                                        *)
+(* ====================================================================== *)
+Definition realizes (ops : list op) (l : list (name * went)) (names : list name) : Prop :=
+  map fst l = names /\
+  (forall o, In o ops -> incl (op_names o) names) /\
+  (forall o, In o ops -> forall n, o <> OSideband n) /\
+  (forall n w, In (n, w) l ->
+     exists r, on_record ops n = Some r /\ fate_of (Some r) = went_fate w).
+
+Lemma reports_on_names o n : reports_on o n -> In n (op_names o).
+Proof. intros R. apply touches_mentioned. left. exact R. Qed.
+
+Lemma in_l_names (l : list (name * went)) names n w : map fst l = names -> In (n, w) l -> In n names.
+Proof. intros <- I. apply (in_map fst) in I. exact I. Qed.
+
+Lemma realizes_nil : realizes [] [] [].
+Proof.
+  unfold realizes. split; [reflexivity|]. split; [intros ? []|]. split; [intros ? []|]. intros ? ? [].
+Qed.
+
+Lemma realizes_app ops1 l1 names1 ops2 l2 names2 :
+  realizes ops1 l1 names1 -> realizes ops2 l2 names2 ->
+  (forall n, In n names1 -> ~ In n names2) ->
+  realizes (ops1 ++ ops2) (l1 ++ l2) (names1 ++ names2).
+Proof.
+  intros (A1 & B1 & C1 & D1) (A2 & B2 & C2 & D2) DJ. repeat split.
+  - rewrite map_app. congruence.
+  - intros o I n' H. apply in_app_iff. apply in_app_iff in I. destruct I as [I|I].
+    + left. apply (B1 o I), H.
+    + right. apply (B2 o I), H.
+  - intros o I. apply in_app_iff in I. destruct I as [I|I]; [apply C1|apply C2]; exact I.
+  - intros n w I. apply in_app_iff in I. destruct I as [I|I].
+    + destruct (D1 n w I) as (r & E & F). exists r. split; [|exact F].
+      apply on_record_app_keep; [|exact E].
+      intros o Io R. apply reports_on_names in R. apply (B2 o Io) in R.
+      apply (DJ n); [eapply in_l_names; eassumption|exact R].
+    + destruct (D2 n w I) as (r & E & F). exists r. split; [|exact F].
+      rewrite on_record_app_skip; [exact E|].
+      intros o Io T. apply touches_mentioned in T. apply (B1 o Io) in T.
+      apply (DJ n T). eapply in_l_names; eassumption.
+Qed.
+
+Lemma realizes_one o n0 r0 w0 :
+  reports o n0 r0 -> op_names o = [n0] -> (forall n, o <> OSideband n) ->
+  fate_of (Some r0) = went_fate w0 ->
+  realizes [o] [(n0, w0)] [n0].
+Proof.
+  intros R N NS F. repeat split.
+  - intros o' [<-|[]]. rewrite N. apply incl_refl.
+  - intros o' [<-|[]]. exact NS.
+  - intros n w [E|[]]. inversion E; subst. exists r0. split; [|exact F].
+    apply (on_record_last_proof [] o [] n r0 R). intros ? [].
+Qed.
+
+Lemma realizes_fill ops l names k :
+  realizes ops l names -> realizes (ops ++ [OFailRemaining names k]) l names.
+Proof.
+  intros (A & B & C & D). repeat split.
+  - exact A.
+  - intros o I. apply in_app_iff in I. destruct I as [I|[<-|[]]]; [apply B, I|apply incl_refl].
+  - intros o I. apply in_app_iff in I. destruct I as [I|[<-|[]]]; [apply C, I|discriminate].
+  - intros n w I. destruct (D n w I) as (r & E & F). exists r. split; [|exact F].
+    apply on_record_app_keep; [|exact E]. intros o [<-|[]] (r' & []).
+Qed.
+
+Lemma realizes_down cs :
+  realizes [OFailedToStart (map rc_name cs) ESetup]
+           (map (fun c => (rc_name c, WServerDown)) cs) (map rc_name cs).
+Proof.
+  repeat split.
+  - rewrite map_map. reflexivity.
+  - intros o [<-|[]]. apply incl_refl.
+  - intros o [<-|[]]. discriminate.
+  - intros n w I. apply in_map_iff in I. destruct I as (c0 & E & I). inversion E; subst.
+    exists (Fail true ESetup). split; [|reflexivity].
+    unfold on_record; simpl.
+    assert (M : mem_bytes (rc_name c0) (map rc_name cs) = true)
+      by (apply mem_bytes_in, in_map, I).
+    rewrite M. reflexivity.
+Qed.
+
+Lemma ended_step ex got : ended ex got = false -> exits_at ex (S got) = ended ex (S got).
+Proof.
+  destruct ex as [e|]; simpl; [|reflexivity]. intros H.
+  apply Nat.leb_gt in H.
+  destruct (Nat.eqb_spec e (S got)), (Nat.leb_spec e (S got)); try reflexivity; lia.
+Qed.
+
+Lemma ended_0 ex : exits_at ex 0 = ended ex 0.
+Proof.
+  destruct ex as [e|]; simpl; [|reflexivity].
+  destruct (Nat.eqb_spec e 0), (Nat.leb_spec e 0); try reflexivity; lia.
+Qed.
+
+Lemma reply_realizes c :
+  realizes [reply_op c] [(rc_name c, WAnswered (rc_reply c))] [rc_name c].
+Proof.
+  unfold reply_op. destruct (rc_reply c) eqn:E.
+  - eapply realizes_one with (r0 := Ok); simpl; auto; discriminate.
+  - eapply realizes_one with (r0 := Fail false EAssert); simpl; auto; discriminate.
+  - eapply realizes_one with (r0 := Fail false EClient); simpl; auto; discriminate.
+  - eapply realizes_one with (r0 := Fail false EOther); simpl; auto; discriminate.
+  - eapply realizes_one with (r0 := Fail true ENoOutcome); simpl; auto; discriminate.
+Qed.
+
+Lemma notsent_realizes c :
+  realizes [OSet (rc_name c) (Fail true ECouldNotRun)] [(rc_name c, WNotSent)] [rc_name c].
+Proof. eapply realizes_one with (r0 := Fail true ECouldNotRun); simpl; auto; discriminate. Qed.
+
+Lemma send_loop_spec ex cs : forall got ops g cl l g',
+  NoDup (map rc_name cs) ->
+  send_loop ex cs got (ended ex got) = (ops, g, cl) ->
+  went_cases ex cs got = (l, g') ->
+  g = g' /\ cl = ended ex g /\ realizes ops l (map rc_name cs).
+Proof.
+  induction cs as [|c cs IH]; intros got ops g cl l g' ND SL WC.
+  - simpl in SL, WC. inversion SL; inversion WC; subst. split; [reflexivity|]. split; [reflexivity|]. apply realizes_nil.
+  - simpl in ND. inversion ND as [|? ? NI ND']; subst.
+    cbn [send_loop went_cases] in SL, WC.
+    destruct (ended ex got) eqn:EN.
+    + (* the client has ended: this and the remaining cases could not be run *)
+      destruct (went_cases ex cs got) as [l0 g0] eqn:WC0. injection WC as <- <-.
+      assert (SL0 : send_loop ex cs got (ended ex got)
+                    = (map (fun c' => OSet (rc_name c') (Fail true ECouldNotRun)) cs, got, true)).
+      { rewrite EN. destruct cs; reflexivity. }
+      destruct (IH got _ _ _ _ _ ND' SL0 WC0) as (G & CL & RZ).
+      injection SL as <- <- <-. split; [exact G|]. split; [symmetry; exact EN|].
+      change (realizes ([OSet (rc_name c) (Fail true ECouldNotRun)] ++
+                        map (fun c' => OSet (rc_name c') (Fail true ECouldNotRun)) cs)
+                       ([(rc_name c, WNotSent)] ++ l0) ([rc_name c] ++ map rc_name cs)).
+      apply realizes_app; [apply notsent_realizes|exact RZ|].
+      intros n [<-|[]]. exact NI.
+    + destruct (send_loop ex cs (S got) (exits_at ex (S got))) as [[ops0 g0] cl0] eqn:SL0.
+      destruct (went_cases ex cs (S got)) as [l0 g1] eqn:WC0.
+      injection SL as <- <- <-. injection WC as <- <-.
+      rewrite (ended_step ex got EN) in SL0.
+      destruct (IH (S got) _ _ _ _ _ ND' SL0 WC0) as (G & CL & RZ).
+      split; [exact G|]. split; [exact CL|].
+      change (realizes ([reply_op c] ++ ops0)
+                       ([(rc_name c, WAnswered (rc_reply c))] ++ l0) ([rc_name c] ++ map rc_name cs)).
+      apply realizes_app; [apply reply_realizes|exact RZ|].
+      intros n [<-|[]]. exact NI.
+Qed.
+
+Definition batch_names (bs : list batch) : list name :=
+  flat_map (fun b => map rc_name (b_cases b)) bs.
+
+Lemma nodup_app_parts {A} (l1 l2 : list A) :
+  NoDup (l1 ++ l2) -> NoDup l1 /\ NoDup l2 /\ (forall x, In x l1 -> ~ In x l2).
+Proof.
+  induction l1 as [|a l1 IH]; simpl; intros H.
+  - repeat split; [constructor|exact H|intros ? []].
+  - inversion H as [|? ? NI ND]; subst. destruct (IH ND) as (A1 & A2 & A3).
+    repeat split; [constructor; [|exact A1]|exact A2|].
+    + intros I. apply NI, in_app_iff. left. exact I.
+    + intros x [<-|I]; [|apply A3, I]. intros I2. apply NI, in_app_iff. right. exact I2.
+Qed.
+
+Lemma run_batches_spec ex bs : forall got,
+  NoDup (batch_names bs) ->
+  realizes (run_batches ex bs got (ended ex got)) (went_list ex bs got) (batch_names bs).
+Proof.
+  induction bs as [|b bs IH]; intros got ND.
+  - apply realizes_nil.
+  - cbn [batch_names flat_map] in ND |- *. fold (batch_names bs) in ND |- *.
+    destruct (nodup_app_parts _ _ ND) as (ND1 & ND2 & DJ).
+    cbn [run_batches went_list]. unfold run_batch.
+    destruct (b_server_ok b).
+    + destruct (send_loop ex (b_cases b) got (ended ex got)) as [[ops g] cl] eqn:SL.
+      destruct (went_cases ex (b_cases b) got) as [l g'] eqn:WC.
+      destruct (send_loop_spec ex _ _ _ _ _ _ _ ND1 SL WC) as (G & CL & RZ). subst g' cl.
+      apply realizes_app; [apply realizes_fill, RZ|apply IH, ND2|exact DJ].
+    + apply realizes_app; [apply realizes_down|apply IH, ND2|exact DJ].
+Qed.
+
+Lemma no_sideband_no_feedback ops n :
+  (forall o, In o ops -> forall m, o <> OSideband m) -> has_feedback ops n = false.
+Proof.
+  intros H. unfold has_feedback. destruct (existsb _ ops) eqn:E; [|reflexivity].
+  apply existsb_exists in E. destruct E as (o & I & X). destruct o; try discriminate.
+  exfalso. eapply H; [exact I|reflexivity].
+Qed.
+
+Lemma flow_verdict_iff_proof kf kfl mark s :
+  (forall n, marks_agree (kf n) (kfl n) (mark n)) ->
+  NoDup (scen_names s) ->
+  (scen_verdict kf kfl s = true <-> scen_success mark s).
+Proof.
+  intros M ND. unfold scen_verdict, scen_success, scen_err.
+  pose proof (run_batches_spec (s_exit_after s) (s_batches s) 0 ND) as RZ.
+  rewrite <- ended_0 in RZ. fold (scen_ops s) in RZ. fold (scen_went s) in RZ.
+  destruct RZ as (A & B & C & D).
+  assert (S : selection (scen_cfg kf kfl s) (scen_ops s) (scen_names s)).
+  { split; [exact ND|]. split; [reflexivity|].
+    intros n I. unfold mentioned in I. apply in_flat_map in I. destruct I as (o & Io & In').
+    apply (B o Io), In'. }
+  rewrite (run_verdict_iff_proof (scen_cfg kf kfl s) mark (scen_ops s) (scen_names s) _ M S).
+  unfold success, case_met, case_fate. split.
+  - intros [SU E]. split; [exact E|]. intros n w I.
+    specialize (SU n (in_l_names _ _ _ _ A I)).
+    destruct (D n w I) as (r & R & F). rewrite R, F in SU.
+    rewrite (no_sideband_no_feedback _ n C) in SU. exact SU.
+  - intros [E SU]. split; [|exact E]. intros n I.
+    unfold batch_names in A. change (flat_map _ (s_batches s)) with (scen_names s) in A.
+    rewrite <- A in I. apply in_map_iff in I. destruct I as ([n' w] & E' & I). simpl in E'. subst n'.
+    destruct (D n w I) as (r & R & F). rewrite R, F.
+    rewrite (no_sideband_no_feedback _ n C). apply (SU n w I).
+Qed.
